@@ -179,8 +179,16 @@ def run(tier: str) -> int:
            "int other(int b) {\n#if 0\n  legacy(b);\n  more(b);\n#else\n  b = b + 1;\n#endif\n  return b;\n}\n")
     WIDE = ("const table = [" + ", ".join(str(i) for i in range(260)) + "]; function lookup(k) {\n  if (k) {\n    return table[k];\n  }\n  return 0;\n}\nfunction other(a) {\n  return a;\n}\n")
     special = [("C", "special/if0.c", IF0), ("C++", "special/if0.cpp", IF0), ("JavaScript", "special/wide.js", WIDE), ("TypeScript", "special/wide.ts", WIDE)]
+    # a suppression marker that ends the line above a function's name line, or sits alone on it: the marker belongs to ITS line
+    # whatever stands on the next one, so a blank or comment line put between the two changes nothing
+    MARK = {"brace": "int one(int a) { return a; } // nocl\nint two(int b) {\n  return b;\n}\n// nocl\nint three(int c) {\n  return c;\n}\n/* nocl */\nint four(int d) {\n  return d;\n}\n",
+            "js": "function one(a) { return a; } // nocl\nfunction two(b) {\n  return b;\n}\n// nocl\nfunction three(c) {\n  return c;\n}\n/* nocl\n */\nfunction four(d) {\n  return d;\n}\n",
+            "py": "def one(a): return a  # nocl\ndef two(b):\n    return b\n# nocl\ndef three(c):\n    return c\n"}
+    special += [("C", "special/mark.c", MARK["brace"]), ("C++", "special/mark.cpp", MARK["brace"]), ("C#", "special/mark.cs", "class K {\n" + MARK["brace"] + "}\n"),
+                ("Java", "special/Mark.java", "class K {\n" + MARK["brace"] + "}\n"), ("JavaScript", "special/mark.js", MARK["js"]), ("TypeScript", "special/mark.ts", MARK["js"]),
+                ("Python", "special/mark.py", MARK["py"])]
     for lang, origin, text in special:
-        for _rep in range(3):  # three independent choices of points
+        for _rep in range(6 if "mark" in origin else 3):  # three independent choices of points
             sel = rng.sample(scripts, min(b["scripts_per_corpus"], len(scripts)))
             jobs.append((lang, text, sel, b["points"], origin, rng.randrange(1 << 30)))
     res = pmap(run_text, jobs, timeout=900, chunk=1)
